@@ -212,6 +212,24 @@ static bool check_on_some_surface(Ctx& c, OrangeTrackView& v, std::string const&
     return true;
 }
 
+//! An internal move ended within the oracle's ambiguity distance (10 tol) of some surface of some
+//! level - typically EXACTLY on an internal surface of the current volume (midpoint of a symmetric
+//! chord: e.g. nested-rect-arrays "find,tobound,setdir:-1,cross,find,mpos:0.5" ends at y = 0, a
+//! plane of the array box that cuts through the surrounding world volume).  The track is then a
+//! start point "within tolerance of a surface" without surface state, which the property excludes
+//! (the navigator refuses to initialise there; a following search from there may mis-set that
+//! surface's sense).  No claim is made for the futures of such a state: the branch is cut.
+static bool position_on_a_surface(Ctx& c, OrangeTrackView& v)
+{
+    OLocation loc = c.locate(r3(v.pos()));
+    if (loc.status == OLocation::ambiguous)
+    {
+        c.R.count("pruned_move_ended_within_tolerance_of_a_surface");
+        return true;
+    }
+    return false;
+}
+
 //! On a boundary with the crossing decided: the reported volume is the one being entered
 static bool check_heading(Ctx& c, OrangeTrackView& v, std::string const& cid, char const* when)
 {
@@ -1033,6 +1051,8 @@ struct OpsSearch
             }
             if (!check_moved_to(c, v, want, id, "after move_internal(distance)"))
                 return false;
+            if (position_on_a_surface(c, v))
+                return false;
             if (!check_located(c, v, id, "after move_internal(distance)"))
                 return false;
             r.phase = ph_next;
@@ -1052,6 +1072,8 @@ struct OpsSearch
                 return false;
             }
             if (!check_moved_to(c, v, q, id, "after move_internal(position)"))
+                return false;
+            if (position_on_a_surface(c, v))
                 return false;
             if (!check_located(c, v, id, "after move_internal(position)"))
                 return false;
@@ -1322,11 +1344,15 @@ static void part_ops(vf::Run& R)
         pristine.push_back(take_snap(*env));
         double scale = env->scale();
         double tol = std::max(env->oracle->tol_abs(), env->oracle->tol_rel() * scale);
-        std::vector<Root> roots;
+        std::vector<Root> roots, lattice_roots;
         int n = nstart;
         for (int ip = 0; ip < n * n * n; ++ip)
             for (size_t di = 0; di < start_dirs.size(); ++di)
             {
+                // thorough: 27 points x 2 directions (the oracle-placed roots below carry the rest
+                // of the budget); quick: 8 points x 3 directions
+                if (R.thorough() && di != 0 && di != 3)
+                    continue;
                 int ix = ip / (n * n), iy = (ip / n) % n, iz = ip % n;
                 // start lattice concentrated on the inner 60% of the probe box (where the
                 // daughters are)
@@ -1336,8 +1362,8 @@ static void part_ops(vf::Run& R)
                     return mid + half * ((i + 0.5 + off) / n * 2 - 1);
                 };
                 D3 p = {coord(0, ix, 0.0137), coord(1, iy, -0.0271), coord(2, iz, 0.0319)};
-                roots.push_back({g, p, start_dirs[di], fmt("ops:%s:p=%d:d=%zu", nm.c_str(), ip, di),
-                                 false});
+                lattice_roots.push_back({g, p, start_dirs[di],
+                                         fmt("ops:%s:p=%d:d=%zu", nm.c_str(), ip, di), false});
             }
         auto reps = chain_reps(*env, 10 * tol, scale, R.thorough() ? 25 : 17);
         size_t const maxrep = R.thorough() ? reps.size() : std::min<size_t>(reps.size(), 10);
@@ -1353,6 +1379,8 @@ static void part_ops(vf::Run& R)
                                  fmt("ops:%s:c=%zu:d=%zu", nm.c_str(), ci, di), true});
             }
         }
+        // oracle-placed roots first (a deadline then cuts lattice roots)
+        roots.insert(roots.end(), lattice_roots.begin(), lattice_roots.end());
         per_geo.push_back(std::move(roots));
         R.tag("geometry:" + nm);
     }
